@@ -165,7 +165,9 @@ structure Cfg where
 def probeSegs (cfg : Cfg) (fname : Str) : List Str := joinSegs cfg.root (join (relSegs fname))
 
 def probeExists (cfg : Cfg) (fname : Str) : Bool :=
-  if fname.contains 0 then false
+  -- os.Stat rejects a NUL in the path it is given, i.e. in the CLEANED name (an element holding a NUL may
+  -- have been removed by a following "..")
+  if (join (relSegs fname)).contains 0 then false
   else match resolve cfg.tree cfg.sb (probeSegs cfg fname) with
     | Res.file _ => true
     | Res.dir => true
